@@ -257,6 +257,7 @@ def tie_a(prop, tier, seed):
                           by_stream={}, class_mismatch=0, generator_errors=0, t_impl=round(t_impl, 2), t_model=round(t_model, 2))
     stats.update(meta)
     classes = {}
+    accepted_ids = set()
     for c in cfgs:
         for cid, it in cases:
             m, i = mres[c].get(cid), ires[c].get(cid)
@@ -267,6 +268,7 @@ def tie_a(prop, tier, seed):
             stats['by_stream'][stream] = stats['by_stream'].get(stream, 0) + 1
             if i['status'] == 'ok':
                 stats['accepted'] += 1
+                accepted_ids.add(cid)
                 stats['impls_compared'] += len(i['impls'])
                 stats['tokens_compared'] += sum(len(x) for x in i['impls'])
             elif i['status'] == 'err':
@@ -290,6 +292,7 @@ def tie_a(prop, tier, seed):
             if i.get('stageA') is not None:
                 stats['stage_a_compared'] = stats.get('stage_a_compared', 0) + 1
     stats['error_classes'] = classes
+    stats['distinct_accepted_items'] = len(accepted_ids)
     if prop == 'C12' and 'safe' in cfgs:
         # the literal second sentence of C12 on the REAL expansions: no `unsafe` token under the `safe` feature
         n = 0
@@ -644,9 +647,9 @@ def check(prop, tier, seed):
             trusted_base=TRUSTED_BASE,
             theorems=audit.get('theorems', []), nonvacuity_examples=audit.get('examples', []),
             coqchk=({k: v for k, v in chk.items() if k != 'tail'} if chk else 'thorough tier only'),
-            evaluations=stats['compared'], distinct_nontrivial=stats['accepted'],
+            evaluations=stats['compared'], distinct_nontrivial=stats['distinct_accepted_items'],
             rule='corpus S1 (systematic), S2 (random, seeded), S3 (invalid); every case is expanded by the real macro code and by the '
-                 'extracted Coq model in each feature configuration of the property and compared token for token; non-trivial = accepted by the macro',
+                 'extracted Coq model in each feature configuration of the property and compared token for token; evaluations = cases x feature sets; distinct_nontrivial = distinct items (ids are unique, generators never repeat an item) that the macro accepts in at least one feature set',
             programs=stats['cases'], traces_validated_against_impl=stats['compared'],
             correspondence=stats, disagreements_owned=len(mine), disagreements_other_properties=others,
             known_findings_reproduced=[k['id'] for k in known],
